@@ -83,8 +83,9 @@ func (stream *receiverStream) processRTP(now time.Time, pktHeader *rtp.Header) {
 
 		// compute jitter
 		// https://tools.ietf.org/html/rfc3550#page-39
+		// RTP timestamps are 32 bit and wrap around: take the difference modulo 2^32 as a signed value.
 		D := now.Sub(stream.lastRTPTimeTime).Seconds()*stream.clockRate -
-			(float64(pktHeader.Timestamp) - float64(stream.lastRTPTimeRTP))
+			float64(int32(pktHeader.Timestamp-stream.lastRTPTimeRTP)) //nolint:gosec // G115
 		if D < 0 {
 			D = -D
 		}
